@@ -66,6 +66,13 @@ func TestVerifRealSinks(t *testing.T) {
 	enc := json.NewEncoder(bw)
 	for si, sc := range all.Scripts {
 		base := t.TempDir()
+		if small := os.Getenv("VERIF_SMALLFS"); small != "" {
+			// the output directory lives on a file system of a few MB mounted by the harness; "fillfs" / "freefs" steps
+			// take all of its free space away and give it back (ENOSPC on whatever the recorders do in between)
+			base = filepath.Join(small, fmt.Sprintf("s%d", si))
+			os.RemoveAll(base)
+			os.MkdirAll(base, 0755)
+		}
 		dir := filepath.Join(base, "out")
 		os.Mkdir(dir, 0755)
 		w, _ := window.New("12:00", "12:00", 0, 0)
@@ -111,6 +118,24 @@ func TestVerifRealSinks(t *testing.T) {
 						os.Rename(dir+".off", dir)
 						broken = false
 					}
+				case "fillfs":
+					if f, err := os.Create(filepath.Join(base, "filler")); err == nil {
+						chunk := make([]byte, 64*1024)
+						for {
+							if _, err := f.Write(chunk); err != nil {
+								break
+							}
+						}
+						small := make([]byte, 512)
+						for {
+							if _, err := f.Write(small); err != nil {
+								break
+							}
+						}
+						f.Close()
+					}
+				case "freefs":
+					os.Remove(filepath.Join(base, "filler"))
 				case "snapreq":
 					mp.StartSnapshot = true
 				case "reset":
@@ -134,6 +159,7 @@ func TestVerifRealSinks(t *testing.T) {
 		if broken {
 			os.Rename(dir+".off", dir)
 		}
+		os.Remove(filepath.Join(base, "filler"))
 		mrec.Stop()
 		// the last motion recording that was completed
 		files := veList(dir)
@@ -153,6 +179,13 @@ func TestVerifRealSinks(t *testing.T) {
 			}
 		}
 		sort.Strings(names)
+		for _, f := range veList(filepath.Join(dir, "constant-recordings")) {
+			if f["kind"] == "final" {
+				if d, _ := f["decodes"].(bool); !d {
+					undec++
+				}
+			}
+		}
 		enc.Encode(map[string]interface{}{"ev": "realsinks", "script": si, "panic": panicMsg, "undecodable": undec,
 			"frames": id, "last": lastIds, "N": sc.Preview*sc.Fps + sc.Trig, "MinF": sc.Min * sc.Fps, "files": len(files), "all": allIds, "after_bad": afterBad})
 	}
